@@ -120,6 +120,10 @@ pub fn c15_twin_reach() {
     std::mem::forget(l);
 }
 
+
+// LexerHelper::new itself is cut: even on 3 symbolic characters the growing Vec + chars() loop runs
+// CBMC out of memory during propositional reduction (probe, 14 GB); the newline list is built directly.
+
 pub const TABLE: &[(&str, fn())] = &[
     ("c15_positions_total", c15_positions_total),
     ("c16_line_of_position", c16_line_of_position),
